@@ -24,6 +24,10 @@ from ..paths import REPO
 EX = REPO + "/naunet/examples"
 
 
+from ..xcheck import XCheck
+
+XC = XCheck()
+
 def example_request(name):
     """the network description an example asks for, as plain data"""
     import importlib.util
@@ -206,6 +210,7 @@ def _analyse(name, tier, res):
                     if a is None or c is None:
                         continue
                     r_ = str(s.check(R(a) != R(c)))
+                    XC.sample(s, [R(a) != R(c)], r_, "api-vs-cli term")
                     if r_ == "unsat":
                         res["ok"].append(f"{tag}:{what}[{i}]")
                     elif r_ == "sat" and bad < 3:
@@ -220,8 +225,17 @@ def _analyse(name, tier, res):
             res["unknown"].append((tag, f"encoder: {e}"))
 
 
-def _work(a):
+def _work_inner(a):
     return analyse(*a)
+
+
+def _work(a):
+    tier = a[-1] if isinstance(a[-1], str) and a[-1] in ("quick", "thorough") else next((x for x in a if x in ("quick", "thorough")), "quick")
+    XC.__init__(every=15 if tier == "thorough" else 40, first=1, cap=10 if tier == "thorough" else 3)
+    r = _work_inner(a)
+    if isinstance(r, dict):
+        r["xcheck"] = XC.summary()
+    return r
 
 
 def main(pid, tier):
@@ -235,6 +249,7 @@ def main(pid, tier):
         chk.programs += r["programs"]
         chk.solver_s += r["solver_s"]
         chk.functions.update(r["functions"])
+        chk.xc.merge(r.get("xcheck"))
         for n in r["ok"]:
             chk.ok(n)
             chk.nontrivial.add(n)
